@@ -178,6 +178,7 @@ class Session:
         self.devnull = open(os.devnull, "w")
         self.ebp = None
         self.oracle = []      # property failures seen directly on the implementation
+        self.last = None
         self.requests = 0
 
     def start(self):
@@ -216,12 +217,15 @@ class Session:
         try:
             v = guard(60, fn)
             res = "1" if (v if truth is None else truth(v)) else "0"
+            self.last = res
         except Timeout:
             res = "T"
             v = Err("timeout")
+            self.last = "timeout"
         except BaseException as e:  # noqa: BLE001
             res = "X"
             v = Err(type(e).__name__)
+            self.last = type(e).__name__
         self.rec.pull()
         seg = self.rec.recs[at + 1:]
         if code[0] in "pke":
@@ -257,6 +261,30 @@ class Session:
         except (OSError, TypeError):
             pass
         self.devnull.close()
+
+
+def ipc_stubs():
+    """the IPC helper table of ebd.py with the real request/reply code (IpcCommand.__call__) and a
+    no-op body"""
+    from pkgcore.ebuild import ebd_ipc
+
+    class Stub(ebd_ipc.IpcCommand):
+        def __init__(self, name):
+            self.name = name
+
+        def parse_args(self, options, args):
+            return args
+
+        def run(self, args):
+            return 0
+    names = c35_tables.scan_extra_handlers(*_trees())["ebd.ipc"]
+    return {n: Stub(n) for n in names}
+
+
+def _trees():
+    import ast
+    from .common import SRC
+    return (ast.parse((SRC / "ebuild" / "processor.py").read_text()), ast.parse((SRC / "ebuild" / "ebd.py").read_text()))
 
 
 def make_repo(chk):
@@ -372,7 +400,7 @@ def real_sessions(chk, P):
     # 5. an unknown command ends the session with an error
     s = session("unknown-command")
     try:
-        s.op("x", lambda: (s.ebp.write("frobnicate now"), True)[1])
+        s.op("x", lambda: (s.ebp.write("frobnicate now", flush=False), True)[1])
         v = s.op("a", lambda: s.ebp.is_responsive)
         if v != Err("EbdError") or s.ebp.pid is not None:
             s.oracle.append({"what": "an unknown command did not end the session with EbdError", "got": repr(v),
@@ -398,8 +426,10 @@ def real_sessions(chk, P):
             os.makedirs(T, exist_ok=True)
             envd = {"T": T, "EBUILD": "/nonexistent/verif-1.ebuild", "CATEGORY": "cat", "PF": "verif-1", "EAPI": "7"}
             s.op("r%d" % lg, lambda: s.ebp.run_phase("setup", envd, tmpdir=T if lg else None,
-                                                    logging=os.path.join(T, "log") if lg else None))
-            s.alive_probe("a failing phase")
+                                                    logging=os.path.join(T, "log") if lg else None,
+                                                    additional_commands=ipc_stubs()))
+            if s.last in ("0", "1", "ProcessorError"):
+                s.alive_probe("a failing phase")
         finally:
             s.stop()
 
